@@ -173,9 +173,12 @@ impl Sm2PublicKey {
     pub fn from_hex_string(hex_str: &str) -> Result<Self, FromHexError> {
         let bytes = hex::decode(hex_str);
         match bytes {
-            Ok(b) => Ok(Self {
-                point: Point::from_byte(b.as_slice()).unwrap(),
-            }),
+            // the signature only offers FromHexError: a decodable hex string that is not a valid
+            // point encoding is reported as a string of the wrong length
+            Ok(b) => match Sm2PublicKey::new(b.as_slice()) {
+                Ok(pk) => Ok(pk),
+                Err(_) => Err(FromHexError::InvalidStringLength),
+            },
             Err(e) => Err(e),
         }
     }
